@@ -808,6 +808,14 @@ func genC13(c *w1Case, r *simrt.Rng) {
 			if hatPos != 0 && !g.down[pk.Code] {
 				continue
 			}
+			if !g.down[pk.Code] && !g.canPressAction("panic") {
+				// "panic injected at every point of every key history": also while an up/down pair is held
+				g.key(pk.Code, 1)
+				g.actDown["panic"] = true
+				g.actCnt["panic"]++
+				g.release(pk.Code)
+				continue
+			}
 			if g.pressAction(pk) && r.Chance(0.7) {
 				g.release(pk.Code)
 			}
